@@ -53,7 +53,7 @@ def handle_call(expr: astroid.Call, context: dict[str, ast.stmt] | None = None) 
             )
             try:
                 result = contract.run(*args, **kwargs)
-            except Exception:
+            except (Exception, SystemExit):
                 continue
             if result is False or type(result) is str:
                 yield Token(
